@@ -5,7 +5,8 @@
      streams = stream;stream;...  (stream = frames, _ = empty stream) or -
      draws   = q,q,... or -        energies = tag=q,tag=q,... or -      E = q (value returned by exp)
    answer:   OUT <accept> <status> <ndraws> <path0> <path1> <calls> <exponent or N>   |  ERR raise | ERR exhausted
-     path    = frames|maxlen|t0|status|weight ;  call = o:t:r/rev/left/right/maxlen/used
+     path    = frames|maxlen|t0|status|weight ;  call = eng/o:t:r/rev/left/right/maxlen/used
+     eng     = e0 (the call is made on engines[-1][0], the [0-] engine) | e1 (engines[0][0], the [0+] engine)
    dump_phasepoint tags: second -> 100000 + t, second_last -> 200000 + t *)
 
 let frame_of_string s =
@@ -59,7 +60,7 @@ let energies_of_string s : (BigZ.t * q) list =
 
 let string_of_call ninf c =
   let left = (match ninf with Some ni when BigZ.equal (big_of_z ni) (big_of_z c.c_left) -> "ninf" | _ -> string_of_z c.c_left) in
-  String.concat "/" [string_of_frame c.c_init; string_of_bool_ c.c_rev; left;
+  String.concat "/" [(match c.c_eng with E0 -> "e0" | E1 -> "e1"); string_of_frame c.c_init; string_of_bool_ c.c_rev; left;
                      string_of_z c.c_right; string_of_nat c.c_maxlen; string_of_nat c.c_used]
 
 let dumpf lab t =
